@@ -70,6 +70,57 @@ def sig_unlisted_stream(c, i, m, k):
     return all(cls == 0 and lid >= 0 for lid, cls in ti)
 
 
+def _case(c):
+    """(table {id: (stream, bytes)}, steps [(op, args…)]) of a case line"""
+    n = int(c[6]); k = 7
+    table = {}
+    for _ in range(n):
+        table[int(c[k])] = (c[k + 1], bytes.fromhex(c[k + 2]) if c[k + 2] != "-" else b"")
+        k += 3
+    ns = int(c[k]); k += 1
+    steps = []
+    while k < len(c):
+        op = c[k]
+        if op in ("C", "T"): steps.append((op, int(c[k + 1]))); k += 2
+        elif op == "A": steps.append((op, int(c[k + 1]), bytes.fromhex(c[k + 2]) if c[k + 2] != "-" else b"")); k += 3
+        elif op == "R": steps.append((op, int(c[k + 1]), int(c[k + 2]))); k += 3
+        elif op == "K": steps.append((op, int(c[k + 1]))); k += 2
+        else: steps.append((op,)); k += 1
+    return table, steps
+
+
+def sig_trunc_multistream(c, i, m, k):
+    """a file carrying two or more streams was truncated while file.d was up, and every lost line was written
+    to that file after the truncation (or the process hit the offset-corruption panic after it)"""
+    ti, tm = _tail(i), _tail(m)
+    if ti is None or ti != tm or "stuck" in i or any(t.startswith("saved-") for t in i):
+        return False
+    try:
+        table, steps = _case(c)
+    except (ValueError, IndexError):
+        return False
+    before, after, truncated = {}, {}, set()
+    for st in steps:
+        if st[0] == "T":
+            truncated.add(st[1])
+        elif st[0] == "A":
+            (after if st[1] in truncated else before).setdefault(st[1], bytearray()).extend(st[2])
+    multi = set()
+    for f in truncated:
+        streams = {s for (s, d) in table.values() if d and d in bytes(before.get(f, b""))}
+        if len(streams) >= 2:
+            multi.add(f)
+    if not multi:
+        return False
+    if "died" in i:
+        # only after the truncation was seen by the model trace
+        return "trunc" in i and i.index("trunc") < i.index("died")
+    if not ti:
+        return False
+    post = b"".join(bytes(after.get(f, b"")) for f in multi)
+    return all(lid in table and table[lid][1] in post for lid, _ in ti)
+
+
 CFG = {
     "manifest": {
         "text": "Proof: Lean theorems (Props/C03.lean) over the transition system Model/FileRestart (files, jobs, per-stream committed offsets, offsets file, in-flight events; ops append / rename-rotate / truncate / readTurn (the C06 worker model) / deliver / ack / commit / save / crash / restart): no_loss_partial (every admitted complete line is acked in some run or handed to the output after the restart, for every history without truncation in which at each crash every stream of a file with an un-acked line has an entry in the saved offsets; includes lines appended and files renamed while down), no_loss_single_stream, no_false_skip, truncation theorems for single-stream files, and the full statement NoLoss with no_loss_counterexample (a1 b2 a3). Tie: the real file.Plugin + pipeline run in child processes that are SIGKILLed and restarted; the observed boundary trace (PassEvent results, output hand-offs, acks, commits, offsets file at the kill) is replayed through the model's step relation on every run.",
@@ -79,7 +130,7 @@ CFG = {
     "props_modules": ["FileD.Props.C03"],
     "nontrivial": c03_nontrivial,
     "classify": c03_classify,
-    "signatures": {"c03_unlisted_stream": sig_unlisted_stream},
+    "signatures": {"c03_unlisted_stream": sig_unlisted_stream, "c03_trunc_multistream": sig_trunc_multistream},
     "trace": True,
     "rule": "histories from one PRNG: 1-3 files (plus files created by rename rotation and new files while down), 1-3 stream values, appends with lines split between writes, acks chosen per (file, stream) head, waits for an offsets save, kill at a step / after the k-th boundary record / at a PRNG instant, downtime appends + rename rotations, restart until idle; dedicated truncation scenarios; async and sync persistence; 1-3 workers, read buffers 16/64/4096, 1-4 processors. distinct = distinct case line; non-trivial = a kill happened, the second run reached idle and the input offered at least one event",
     "corr_name": "FileRestart.step? replay = observed boundary trace of file.Plugin + pipeline (PassEvent results, SeqIDs, hand-offs, commits, offsets file at the kill, idleness)",
